@@ -102,6 +102,34 @@ def _zinc_job(args):
     return jid, {'ab': ab, 'text': text, 'ab2': ab2}
 
 
+def _json_job(args):
+    """the same batch through the JSON writer and reader"""
+    import jsoncodec
+    jid, pos, strings = args
+    hs, A = _W['hs'], _W['A']
+    (g, _), = batches(hs, pos, strings, len(strings)) if pos not in ('gmeta', 'cmeta') else batches(hs, pos, strings, 40)[:1]
+    ab = jsoncodec.q6_doc(A.doc([g]))
+    try:
+        text = hs.dump(g, mode=hs.MODE_JSON)
+    except Exception as e:
+        return jid, {'err': 'dump_raises', 'exc': repr(e)[:200]}
+    try:
+        tree = jsoncodec.strict_loads(text)
+    except Exception as e:
+        return jid, {'err': 'not_json', 'exc': repr(e)[:200]}
+    r = {'ab': ab, 'text': text,
+         'strict_case': {'k': 'denotes', 'tree': tree, 'strict': True, 'top': 'object', 'hasden': False, 'den': [],
+                         'q6': True, 'expect': ab}}
+    try:
+        back = hs.parse(text, mode=hs.MODE_JSON, single=False)
+        r['ab2'] = jsoncodec.q6_doc(A.doc(back))
+    except absval.NotAbstractable as e:
+        r.update(err='parse_result_not_haystack', exc=str(e))
+    except Exception as e:
+        r.update(err='parse_raises', exc=repr(e)[:200])
+    return jid, r
+
+
 def locate(strings, ab, ab2):
     """which strings of the batch did not come back (for the replay file; the verdict is TLC's)"""
     bad = []
@@ -135,8 +163,7 @@ def run_format(rep, work, hs, fmt, jobs, label):
     found = []
     job = _zinc_job if fmt == 'zinc' else None
     if fmt == 'json':
-        import jsoncodec
-        job = jsoncodec.c08_job
+        job = _json_job
     with multiprocessing.get_context('fork').Pool(NCPU, initializer=_init) as pool:
         res = dict(pool.map(job, [(i, p, s) for i, (p, s) in enumerate(jobs)], chunksize=1))
     cases, info = [], {}
@@ -167,7 +194,7 @@ def run_format(rep, work, hs, fmt, jobs, label):
         verdicts = zinccodec.judge_cases(rep, work, cases, label)
     else:
         import jsoncodec
-        verdicts = jsoncodec.judge_cases(rep, work, cases, label)
+        verdicts = {k: (v[0], v[1], 0) for k, v in jsoncodec.judge_cases(rep, work, cases, label).items()}
     rep.traces += len(cases)
     for n, (v, clause, p) in sorted(verdicts.items()):
         if v == 'REJECT':
@@ -215,11 +242,7 @@ def run(tier):
     found = []
     with Work('c08') as work:
         found += run_format(rep, work, hs, 'zinc', jobs, 'c08z')
-        try:
-            import jsoncodec
-            have_json = hasattr(jsoncodec, 'c08_job')
-        except ImportError:
-            have_json = False
+        have_json = True
         if have_json:
             found += run_format(rep, work, hs, 'json', jobs, 'c08j')
         rep.extra['formats'] = ['zinc'] + (['json'] if have_json else [])
